@@ -132,8 +132,6 @@ def _gen_cpd_cases(tier, seed, salt, max_par=3):
                 choices = [c for c in choices if len(set(c)) == 3] + [(2, 2, 2), (3, 1, 1), (1, 3, 2), (2, 3, 3)]
             elif npar == 3:
                 choices = [(2, 3, 1, 2), (3, 2, 3, 1), (1, 2, 2, 3), (2, 1, 3, 2), (3, 3, 2, 2)]
-        elif npar == 3:
-            choices = [c for i, c in enumerate(choices) if len(set(c)) == 3 or i % 3 == 0]
         for cs in choices:
             labs = LABELINGS if (tier != "quick" or npar >= 2) else (LABELINGS[idx % 5], LABELINGS[(idx + 2) % 5])
             for lab in labs:
@@ -571,7 +569,7 @@ def groups(tier):
     return [
         Group("cpd", gen_cpd, check_cpd, nontrivial_cpd, seed_fanout=2, engine="E3",
               bound="0..3 parents; quick: all card assignments for <= 1 parent (2 labelings each), 10 for 2 parents and 5 for 3 parents (5 labelings "
-                    "each); thorough: all for <= 2 parents, 3-parent assignments with 3 distinct cards + every 3rd other, 5 labelings. Constructor "
+                    "each); thorough: all 3^(k+1) card assignments for k = 0..3 parents, 5 labelings each. Constructor "
                     "column meaning, get_values, copy, to_factor, reorder_parents (every permutation, in place and out of place), normalize, "
                     "marginalize (every parent subset, both listing orders), reduce (every assignment of every parent subset), frame + aliasing. " + common),
         Group("validity", gen_valid, check_valid, nontrivial_cpd, seed_fanout=1, engine="E3",
